@@ -253,6 +253,12 @@ def chain_calls(rnd, uni, n_elems):
             opts += ['worm', 'worm', 'worm']
         c = rnd.choice(opts)
         arg = {'isnum': True, 'v': rstr(float(f'{rnd.uniform(0.3, 1) if c == "gear" else rnd.uniform(0, 0.5):.6g}'))}
+        if c == 'worm' and rnd.random() < 0.6:
+            worm = uni[a] if ka == 'WormGear' else uni[b]            # friction a little below / above this worm's threshold
+            thr = math.cos(float(Fraction(worm['alpha']))) * math.tan(2 * math.atan(float(Fraction(worm['th']))))
+            f = thr * (1 + rnd.choice([-1, -1, 1]) * rnd.choice([1e-6, 1e-4, 1e-3, 3e-3, 0.01, 0.03]))
+            if 0 <= f <= 1:
+                arg = {'isnum': True, 'v': rstr(float(f'{f:.9g}'))}
         calls.append({'call': c, 'm': a, 's': b, 'arg': arg})
         if rnd.random() < 0.15:      # re-route: declare another successor, then the intended one again
             other = rnd.choice(keys)
